@@ -155,7 +155,7 @@ def make_case(rng, maxn=400, workers=None, fail_fast=None, cancel=False, family=
     c["latUs"] = lat
     c["yield"] = rng.random() < 0.5
     c["onCancel"] = [rng.choice(["abort", "abort", "fail", "ignore"]) for _ in range(n)]
-    c["failKind"] = [rng.choice(["error", "error", "deadline"]) for _ in range(n)]
+    c["failKind"] = [rng.choice(["error", "error", "deadline", "spurious-cancel"]) for _ in range(n)]
     c["workers"] = rng.choice([0, 0, 1, 2, 3, 8]) if workers is None else workers
     # unselected nodes: a set closed under dependants (so the selection is closed under dependencies)
     unsel = set()
@@ -225,6 +225,10 @@ def oracle(c, o):
     if "error" in o:
         return [("C04", "walker-harness-error", "harness error: " + str(o["error"]))]
     if o.get("hang"):
+        spurious = [m for m in c.get("fail", []) if c.get("failKind", [])[m:m + 1] == ["spurious-cancel"]]
+        if spurious and not c.get("cancelAfterEvents") and not c.get("cancelAtUs") and not c.get("preCancel"):
+            return [("C04", "walker-hang-spurious-cancel", "Walk did not return within the time bound; nobody cancelled the walk context but "
+                     f"the callbacks of {spurious[:5]} return an error wrapping context.Canceled")]
         return [("C04", "walker-hang", "Walk did not return within the time bound")]
     ins = deps_of(n, edges)
     unsel = set(c.get("unsel", []))
